@@ -49,6 +49,9 @@ fn family(name: &str) -> GenCfg {
         "churn" => GenCfg { threads: (3, 5), ops: (1, 3), hold: vec![0, 0, 8], ..base },
         // every load on the fallback path (no fast slots), writers mostly rcu/cas: helpers abound
         "helprcu" => GenCfg { threads: (3, 4), strategy: 1, w: [9, 4, 4, 1, 3, 2, 3, 6, 1], ops: (3, 7), with_null: false, ..base },
+        // short-lived threads that all take the fallback path, two containers, writers: a node changes
+        // owner while a writer may still be inside it
+        "helpchurn" => GenCfg { threads: (4, 6), containers: 2, strategy: 1, w: [9, 3, 3, 1, 6, 2, 1, 1, 1], ops: (1, 3), with_null: false, ..base },
         "helpiso" => GenCfg { threads: (3, 4), containers: 2, strategy: 1, w: [9, 4, 4, 1, 5, 3, 2, 3, 1], ops: (3, 7), ..base },
         other => panic!("unknown family {}", other),
     }
